@@ -23,6 +23,7 @@ import (
 	"strings"
 
 	"github.com/openGemini/openGemini/engine"
+	"github.com/openGemini/openGemini/engine/immutable"
 	"github.com/openGemini/openGemini/lib/util/lifted/influx/influxql"
 
 	"verif/harness/engx"
@@ -145,6 +146,7 @@ type history struct {
 	kinds   string
 	script  []string // replayable history: W rows / F / c lv / C / m full
 	sid     map[uint64]int
+	method  int32 // compaction method of the history
 }
 
 func (h *history) genVal(col string) int64 {
@@ -384,6 +386,7 @@ func (h *history) emitLayout() (*layout, bool) {
 	}
 	type statOp struct {
 		op, ans string
+		bad     string // the stored record is not the statistics of the chunk's rows
 	}
 	var stats []statOp
 	for fi, f := range fl {
@@ -460,7 +463,7 @@ func (h *history) emitLayout() (*layout, bool) {
 			// stored statistics
 			for _, st := range ch.Stats {
 				if st.Name == "time" {
-					stats = append(stats, statOp{fmt.Sprintf("stat %d %d time", fi, s), fmt.Sprintf("st %d", st.Count)})
+					stats = append(stats, statOp{fmt.Sprintf("stat %d %d time", fi, s), fmt.Sprintf("st %d", st.Count), checkStored("time", fmt.Sprintf("st %d", st.Count), ci.segs)})
 					continue
 				}
 				a := fmt.Sprintf("st %d", st.Count)
@@ -496,16 +499,91 @@ func (h *history) emitLayout() (*layout, bool) {
 						}
 					}
 				}
-				stats = append(stats, statOp{fmt.Sprintf("stat %d %d %s", fi, s, st.Name), a})
+				stats = append(stats, statOp{fmt.Sprintf("stat %d %d %s", fi, s, st.Name), a, checkStored(st.Name, a, ci.segs)})
 			}
 		}
 		lay.files = append(lay.files, info)
 	}
 	c.Emit("endlayout", "ok")
 	for _, s := range stats {
-		c.Emit(s.op, s.ans)
+		line := c.Emit(s.op, s.ans)
+		if s.bad != "" {
+			c.Violation(line, "stored-statistics-differ-from-rows", fmt.Sprintf("history %d (%s) seg=%d method=%d: %s -> %s; %s; REPLAY (ogh C09 -replay <file with these lines>): H %d %d %d %d | %s | S",
+				h.idx, h.kinds, h.seg, h.method, s.op, s.ans, s.bad, h.seg, h.nSeries, h.nTimes, h.method, strings.Join(h.script, " | ")))
+		}
 	}
 	return lay, true
+}
+
+// checkStored compares the canonical text of a stored statistics record with the statistics
+// of the rows of the chunk: count, sum, extreme values; the time stored next to an extreme value
+// must be a time at which the column has that value (which one is left open).
+func checkStored(col, ans string, segs [][]row) string {
+	f := strings.Fields(ans)
+	if len(f) < 2 || f[0] != "st" {
+		return "unreadable record"
+	}
+	var pts []pt
+	n := 0
+	for _, seg := range segs {
+		for _, r := range seg {
+			n++
+			if x := colIdx(col); x >= 0 && r.cs[x].ok {
+				pts = append(pts, pt{r.t, r.cs[x].v})
+			}
+		}
+	}
+	cnt, _ := strconv.Atoi(f[1])
+	if col == "time" {
+		if cnt != n {
+			return fmt.Sprintf("stored row count %d, the chunk has %d rows", cnt, n)
+		}
+		return ""
+	}
+	if cnt != len(pts) {
+		return fmt.Sprintf("stored count %d, the rows hold %d values", cnt, len(pts))
+	}
+	if len(pts) == 0 || len(f) == 2 {
+		return ""
+	}
+	rest := f[2:]
+	if col == "fi" || col == "ff" {
+		var sum int64
+		for _, p := range pts {
+			sum += p.v
+		}
+		if rest[0] != strconv.FormatInt(sum, 10) {
+			return fmt.Sprintf("stored sum %s, the rows sum to %d", rest[0], sum)
+		}
+		rest = rest[1:]
+	}
+	if len(rest) != 4 {
+		return "unreadable record"
+	}
+	mn, mx := pts[0].v, pts[0].v
+	for _, p := range pts {
+		if p.v < mn {
+			mn = p.v
+		}
+		if p.v > mx {
+			mx = p.v
+		}
+	}
+	at := func(v int64, t string) bool {
+		for _, p := range pts {
+			if p.v == v && strconv.Itoa(p.t) == t {
+				return true
+			}
+		}
+		return false
+	}
+	if rest[0] != strconv.FormatInt(mn, 10) || !at(mn, rest[1]) {
+		return fmt.Sprintf("stored min %s at %s, the rows have min %d (not at that time)", rest[0], rest[1], mn)
+	}
+	if rest[2] != strconv.FormatInt(mx, 10) || !at(mx, rest[3]) {
+		return fmt.Sprintf("stored max %s at %s, the rows have max %d (not at that time)", rest[2], rest[3], mx)
+	}
+	return ""
 }
 
 // ---------------------------------------------------------------------------------------------
@@ -1245,8 +1323,34 @@ func (h *history) genQuery(bs []int) aggQuery {
 			q.calls = append(q.calls, call{f, col})
 		}
 	}
+	mix := r.Chance(12)
+	if mix {
+		// several calls on different columns, first / last among them: every column keeps its own
+		// statistics while the record keeps the rows of all of them
+		q.calls = nil
+		fl := []string{"first", "last"}[r.Intn(2)]
+		c1 := cols[r.Intn(4)]
+		q.calls = append(q.calls, call{fl, c1})
+		for len(q.calls) < 2+r.Intn(2) {
+			f := []string{"count", "sum", "min", "max", "first", "last"}[r.Intn(6)]
+			cs := fnCols[f]
+			c2 := cs[r.Intn(len(cs))]
+			dup := false
+			for _, c := range q.calls {
+				if c.f == f && c.col == c2 {
+					dup = true
+				}
+			}
+			if !dup {
+				q.calls = append(q.calls, call{f, c2})
+			}
+		}
+		if r.Bool() {
+			q.calls[0], q.calls[1] = q.calls[1], q.calls[0]
+		}
+	}
 	switch {
-	case r.Chance(20):
+	case r.Chance(20) || (mix && r.Chance(50)):
 		q.lo, q.hi = -5, h.nTimes+5
 	default:
 		a, b := bs[r.Intn(len(bs))], bs[r.Intn(len(bs))]
@@ -1265,6 +1369,11 @@ func (h *history) genQuery(bs []int) aggQuery {
 		}
 	}
 	q.asc = !r.Chance(30)
+	if mix {
+		q.hint, q.interval = false, 0
+		q.grp = []string{"-", "zone", "zone", "host"}[r.Intn(4)]
+		return q
+	}
 	if r.Chance(20) {
 		q.fcol = []string{"fi", "ff"}[r.Intn(2)]
 		q.fop = []string{">", "<="}[r.Intn(2)]
@@ -1307,8 +1416,21 @@ func (h *history) checkpoint(nq int) {
 	// the plain select over everything, once per layout
 	fullAns, full := h.rawRows(-5, h.nTimes+5, "", "", 0)
 	c.Emit(fmt.Sprintf("raw %d %d -", -5, h.nTimes+5), fullAns)
+	var chunks []chunkInfo
+	for _, f := range lay.files {
+		chunks = append(chunks, f.chunks...)
+	}
 	for i := 0; i < nq; i++ {
 		q := h.genQuery(bs)
+		if len(chunks) > 0 && i < 2 {
+			// statistics probe: the range is exactly (or just around) the time range of one stored
+			// chunk, so that its stored record is what the un-hinted path serves
+			ch := chunks[h.r.Intn(len(chunks))]
+			f := []string{"count", "sum", "min", "max", "mean", "count"}[h.r.Intn(6)]
+			cs := fnCols[f]
+			q = aggQuery{calls: []call{{f, cs[h.r.Intn(len(cs))]}}, lo: ch.min - h.r.Intn(2), hi: ch.max + h.r.Intn(2), grp: []string{"host", "-", "zone"}[h.r.Intn(3)], asc: !h.r.Chance(30), fill: "none"}
+			c.Count("query:statistics-probe")
+		}
 		raw := full
 		// the corresponding plain select itself (always when there is a field filter)
 		if q.fcol != "" || h.r.Chance(25) {
@@ -1341,6 +1463,9 @@ func (h *history) checkpoint(nq int) {
 		}
 		if q.eligible() {
 			c.Count("query:statistics-eligible")
+			if len(q.calls) > 1 {
+				c.Count("query:statistics-eligible-several-calls")
+			}
 		}
 		cuts := false
 		for _, f := range lay.files {
@@ -1424,7 +1549,7 @@ func (h *history) writeReplay(line int, q aggQuery) {
 		return
 	}
 	var b strings.Builder
-	fmt.Fprintf(&b, "H %d %d %d\n", h.seg, h.nSeries, h.nTimes)
+	fmt.Fprintf(&b, "H %d %d %d %d\n", h.seg, h.nSeries, h.nTimes, h.method)
 	for _, l := range h.script {
 		b.WriteString(l + "\n")
 	}
@@ -1507,6 +1632,12 @@ func runReplay(c *hx.Ctx, path string) error {
 			h.nSeries, _ = strconv.Atoi(f[2])
 			h.nTimes, _ = strconv.Atoi(f[3])
 			h.hiWater = make([]int, h.nSeries)
+			if len(f) > 4 {
+				m, _ := strconv.Atoi(f[4])
+				h.method = int32(m)
+			}
+			immutable.SetMergeFlag4TsStore(h.method)
+			defer immutable.SetMergeFlag4TsStore(0)
 			engine.VerifSetMaxRowsPerSegment(h.seg)
 			sh, err := engine.VerifOpenShard(dir, 1)
 			if err != nil {
@@ -1538,6 +1669,13 @@ func runReplay(c *hx.Ctx, path string) error {
 		case "m":
 			h.doMerge(f[1] == "true")
 			lay = nil
+		case "S":
+			if lay == nil {
+				var ok bool
+				if lay, ok = h.emitLayout(); !ok {
+					return fmt.Errorf("layout failed")
+				}
+			}
 		case "Q":
 			q, err := parseAgg(f[1:])
 			if err != nil {
@@ -1612,7 +1750,7 @@ func classify(q aggQuery) string {
 // replayText is the history so far and the failing query, one line (the format of -replay
 // files with " | " for the line breaks).
 func (h *history) replayText(q aggQuery) string {
-	return fmt.Sprintf("H %d %d %d | %s | Q %s", h.seg, h.nSeries, h.nTimes, strings.Join(h.script, " | "), q.opText())
+	return fmt.Sprintf("H %d %d %d %d | %s | Q %s", h.seg, h.nSeries, h.nTimes, h.method, strings.Join(h.script, " | "), q.opText())
 }
 
 func runHistory(c *hx.Ctx, r *hx.Rng, idx int) error {
@@ -1633,6 +1771,15 @@ func runHistory(c *hx.Ctx, r *hx.Rng, idx int) error {
 	}
 	engine.VerifSetMaxRowsPerSegment(h.seg)
 	defer engine.VerifSetMaxRowsPerSegment(0)
+	// compaction method (configuration item compact.compaction-method): 0 = chosen by size (never
+	// streaming for chunks this small), 1 = streaming (statistics of the compacted chunk are
+	// merged from the stored records: StreamIterators.merge*PreAgg), 2 = non-streaming (rebuilt
+	// from the rows: ColumnBuilder)
+	method := []int32{0, 1, 1, 2}[r.Intn(4)]
+	immutable.SetMergeFlag4TsStore(method)
+	defer immutable.SetMergeFlag4TsStore(0)
+	c.Count(fmt.Sprintf("compaction-method=%d", method))
+	h.method = method
 	h.hiWater = make([]int, h.nSeries)
 	for i := range h.hiWater {
 		h.hiWater[i] = -1
@@ -1689,7 +1836,7 @@ func runHistory(c *hx.Ctx, r *hx.Rng, idx int) error {
 }
 
 func Run(c *hx.Ctx) error {
-	c.Stats.Rule = "random histories over 2-4 series (2 tag groupings) x 12-96 timestamps x 4 typed fields with nulls (int, float as multiples of 1/8, bool, string), rows-per-segment 4/8/16 (default 1000 for a few bulk histories in the thorough tier): writes (advancing, late, rewrites of flushed keys), flush, level/full compaction, out-of-order merge; at 1-2 check points the layout is read back (chunks, segments, stored statistics) and 6-8 aggregate queries (count/sum/mean/min/max/first/last, 1-3 calls, range ends on/next to/inside segments, group by host/zone, time buckets with fill none/null, exact hint, descending, field filter) run through the single-node query path next to the corresponding plain selects; a case is non-trivial when the range cuts a stored segment or memtable and files both hold rows; distinct by history and query text"
+	c.Stats.Rule = "random histories over 2-4 series (2 tag groupings) x 24-168 timestamps x 4 typed fields with nulls (int, float as multiples of 1/8, bool, string), rows-per-segment 8/16/24 (default 1000 for a few bulk histories in the thorough tier), compaction method auto/streaming/non-streaming: writes (advancing, late, rewrites of flushed keys), flush, level/full compaction, out-of-order merge; at 1-2 check points the layout is read back (chunks, segments, stored statistics per column: each stored record is compared with the statistics of the chunk's own rows) and 6-8 aggregate queries (count/sum/mean/min/max/first/last, 1-3 calls, range ends on/next to/inside segments, group by host/zone, time buckets with fill none/null, exact hint, descending, field filter; two statistics probes whose range is one stored chunk; mixes of first/last with calls on other columns) run through the single-node query path next to the corresponding plain selects; a case is non-trivial when the range cuts a stored segment or memtable and files both hold rows; distinct by history and query text"
 	if c.Replay != "" {
 		return runReplay(c, c.Replay)
 	}
